@@ -68,7 +68,7 @@ def gen_prog(rng):
                 beh.append('none')
         table[n] = beh
     seqstate = rng.choice(['X', 'X', None])
-    cleanups = {'c': ('seq', 'X') if seqstate else rng.choice(['none', 'raise', 'bad', 'req-stop', 'req-start'])}
+    cleanups = {'c': ('seq', 'X') if seqstate else rng.choice(['none', 'raise', 'bad', 'req-stop', 'req-start', 'finish', 'finish'])}
     if seqstate:
         table['X'] = rng.choice([['retry', 'retry', 'finish'], ['finish'], ['retry', 'raise'], [('next', 'Y')], ['retry', 'bad']])
         if table['X'] == [('next', 'Y')]:
@@ -151,6 +151,8 @@ class Harness:
                 raise KeyError('cleanup')
             if beh == 'bad':
                 return 7
+            if beh == 'finish':
+                return self.SM.Finish       # what a state function may return, a cleanup function may not (a non-callable like 7)
             return self.funcs[beh[1]]
         c.__name__ = 'cleanup_' + name
         return c
